@@ -85,6 +85,39 @@ def roundtrip(ci, lst, latin, n, i0, i1, i2):
     return True
 
 
+WIDTH_CHARS = ["a", "\u00e9", "\u65e5", "\U0001f600"]  # 1, 2, 3 and 4 bytes in UTF-8
+
+
+def boundary_line(k, w, tail):
+    """k ASCII characters, then one character that is w bytes wide in UTF-8 (w = 1..4), then an optional ASCII tail: the
+    multi-byte character starts at byte offset k (+1 for the blank of a listing body line, +4 behind a code and separator)"""
+    return "abc"[:k] + WIDTH_CHARS[w - 1] + (".t" if tail else "")
+
+
+def roundtrip_utf8(lst, n, k0, w0, k1, w1, tail):
+    """as roundtrip, for lines in which a multi-byte character sits at every small byte offset (code / separator / body
+    boundaries are BYTE positions on the wire and CHARACTER positions after decoding)"""
+    hb.KEY = ""
+    n, k0, w0, k1, w1 = hb.conc(n, 2, 3), hb.conc(k0, 0, 3), hb.conc(w0, 1, 4), hb.conc(k1, 0, 3), hb.conc(w1, 1, 4)
+    lst, tail = bool(lst), bool(tail)
+    lines = [boundary_line(k0, w0, tail), boundary_line(k1, w1, tail), "end"][3 - n:]
+    if n == 3:
+        lines = [lines[2], lines[0], lines[1]]  # head 'end', body and tail carry the characters
+    wire = encode_reply("250", lines, lst, "utf-8") + encode_reply(SENTINEL[0], SENTINEL[1], False, "utf-8")
+    c = aioftp.Client(path_io_factory=aioftp.MemoryPathIO, encoding="utf-8")
+    c.stream = ListStream(wire)
+    got_code, info = drive(c.parse_response())
+    if not (got_code == "250" and list(info) == expected_info(lines, lst)):
+        hb.KEY = "decode-utf8"
+        return False
+    s_code, s_info = drive(c.parse_response())
+    if not (s_code == SENTINEL[0] and list(s_info) == [" ok"]):
+        hb.KEY = "desync-utf8"
+        return False
+    hb.path_done("c06_utf8", "")
+    return True
+
+
 def roundtrip_free(lst, l0, l1):
     """Mode S search: free Unicode body/tail lines (no CR/LF, no trailing whitespace)"""
     hb.KEY = ""
